@@ -178,10 +178,19 @@ def _check_answers(g, seq, tag, probe_versions):
     tup = lambda refs: [tuple(r.version) for r in refs]  # noqa: E731
     for n in names + ["ns.absent"]:
         exp = byname.get(n, [])
-        got = tup(g.versions(n))
+        res = g.versions(n)
+        got = tup(res)
         if got != exp:
             sub = "unsorted" if sorted(got) == exp else ("missing" if set(got) < set(exp) else "wrong")
             raise Violation(f"C16:group-{tag}:versions-{sub}", f"versions({n!r}) -> {got}", exp)
+        if isinstance(res, list) and res:
+            # the answer belongs to the caller: re-ordering / emptying it must not change what the group knows
+            res.reverse()
+            del res[1:]
+            again = tup(g.versions(n))
+            if again != exp:
+                raise Violation(f"C16:group-{tag}:versions-aliased", f"versions({n!r}) -> {again} after the caller "
+                                f"reversed and truncated the list returned by the previous call", exp)
         if (n in g) != bool(exp):
             raise Violation(f"C16:group-{tag}:contains-name", f"{n!r} in g -> {n in g}", bool(exp))
         for v in probe_versions:
@@ -207,6 +216,15 @@ def _check_answers(g, seq, tag, probe_versions):
     return g
 
 
+class _PlainMixin:
+    pass
+
+
+def _base_forms(c):
+    """Base-class tuples in which plugin class c can appear."""
+    return [("only", (c,)), ("first", (c, _PlainMixin)), ("second", (_PlainMixin, c))]
+
+
 def check_loading(seq, how):
     """get() with and without version: the right class comes back; unversioned cannot be subclassed."""
     g = check_group(seq, how, probe_versions=[(0, 0, 0), (1, 1, 0)])
@@ -218,26 +236,23 @@ def check_loading(seq, how):
             best = max(w for w in vs if w[0] == v[0] and w[1] >= v[1])
             if c is None or tuple(c.Plugin.version) != best or c.Plugin.name != n:
                 raise Violation("C16:get-versioned", f"get({n!r},{v}) -> {c!r}", f"class of version {best}")
-            try:
-                _PM("Sub", (c,), {})
-            except TypeError as e:
-                raise Violation("C16:versioned-class-not-subclassable", f"{e}", "subclassing allowed")
+            for form, bases in _base_forms(c):
+                try:
+                    _PM("Sub", bases, {})
+                except TypeError as e:
+                    raise Violation("C16:versioned-class-not-subclassable", f"{form}: {e}", "subclassing allowed")
         c = g.get(n)
         if c is None or tuple(c.Plugin.version) != vs[-1]:
             raise Violation("C16:get-unversioned", f"get({n!r}) -> {c!r}", f"class of newest version {vs[-1]}")
-        try:
-            _PM("Sub", (c,), {})
-        except TypeError:
-            pass
-        else:
-            raise Violation("C16:undef-version-subclassable", f"subclassing get({n!r}) succeeded", "TypeError")
-        try:
-            c2 = g[n]
-            _PM("Sub", (c2,), {})
-        except TypeError:
-            pass
-        else:
-            raise Violation("C16:undef-version-subclassable", f"subclassing g[{n!r}] succeeded", "TypeError")
+        for how_, cu in (("get", c), ("getitem", g[n])):
+            for form, bases in _base_forms(cu):
+                try:
+                    _PM("Sub", bases, {})
+                except TypeError:
+                    pass
+                else:
+                    raise Violation("C16:undef-version-subclassable" + ("" if form == "only" else ":" + form),
+                                    f"subclassing {how_}({n!r}) as {form} base succeeded", "TypeError")
 
 
 # ---------------------------------------------------------------- shards
